@@ -65,10 +65,10 @@ Words ==
     nl |-> <<"nul", "een", "één", "twee", "drie", "zeven", "negen", "tien", "elf", "twaalf", "zestien",
              "twintig", "dertig", "honderd", "duizend", "miljoen", "miljard", "en", "komma",
              "eerste", "tweede", "derde", "twintigste", "eenentwintig", "tweehonderd", "drieënvijftig",
-             "plus", "is", "dan", "katten", "de", "huis">> ]
+             "plus", "is", "dan", "katten", "de", "huis", "biljoen", "miljoenen", "miljarden">> ]
 
 \* separators between words of a generated text
-Seps == <<" ", ", ", ". ", "-", "; ", " - ", "  ", "! ", "- ", " -", "' ", "-, ", "biljoen", "miljoenen">>
+Seps == <<" ", ", ", ". ", "-", "; ", " - ", "  ", "! ", "- ", " -", "' ", "-, ", ",", ":">>
 \* a strong separator (C10): >= 3 ordinary (non-number, non-linking) words ending a sentence
 StrongSep ==
   [ en |-> <<" green cars arrived. ", " went home today. ">>,
